@@ -53,6 +53,25 @@ def udpclHandler : Handler := fun op j =>
         ("port", jnat q.2.port), ("len", jnat q.2.length), ("hex", jhex q.2.data)])),
       ("pending", jnat s.frags.length),
       ("outcomes", jarr (outs.reverse.map Json.str))])
+  | "udpcl.hist" => do
+    -- a D-Bus visible history: {"addr","port","hex"} = datagram, {"pop": id} = recv_bundle_pop_data
+    let rej := (getBool? j "reject").getD false
+    let ops ← getArr? j "ops"
+    let (s, outs) := ops.toList.foldl (fun (acc : Udpcl.Rx × List Json) o =>
+      match getNat? o "pop" with
+      | some bid =>
+        match Udpcl.popData acc.1 bid with
+        | some (d, s') => (s', jobj [("pop", jhex d)] :: acc.2)
+        | none => (acc.1, jobj [("pop", Json.str "KeyError")] :: acc.2)
+      | none =>
+        match getStr? o "addr", getNat? o "port", getHex? o "hex" with
+        | some a, some p, some b =>
+          let (s', oc) := Udpcl.recvDatagram rej acc.1 a p b
+          (s', jobj [("outcome", Json.str (outcomeStr oc)),
+            ("queue", jarr ((Udpcl.queueIds s').map jnat))] :: acc.2)
+        | _, _, _ => (acc.1, jerr "bad op" :: acc.2)) (Udpcl.Rx.init, [])
+    some (jobj [("results", jarr outs.reverse), ("queue", jarr ((Udpcl.queueIds s).map jnat)),
+      ("next_id", jnat s.rxId)])
   | "udpcl.range_enc" => do
     let a ← getArr? j "pairs"
     let ps ← a.toList.mapM pairOf?
